@@ -76,3 +76,50 @@ def seed():
         return int(os.environ.get("VERIF_SEED", "0") or 0)
     except ValueError:
         return 0
+
+
+# ---------------------------------------------------------------- structure-count estimate (sizes the thorough tier)
+def structures(types, instrs, cfg):
+    """upper estimate of the number of value-forked structures of a unit under cfg (lens / counts options)"""
+    nl, cs = len(cfg["lens"]), cfg["counts"]
+
+    def of_type(t, length, padded):
+        if t[0] == "str":
+            if length is None:
+                return nl
+            if length[0] == "const":
+                return min(nl, length[1] + 1) if padded else 1
+            return nl
+        if t[0] == "blob":
+            return nl
+        if t[0] == "struct":
+            return structures(types, types[t[1]][1], cfg)
+        return 1
+
+    total = 1
+    for ins in instrs:
+        k = ins[0]
+        if k == "field" and ins[1] is not None and ins[6] is None:
+            n = of_type(ins[2], ins[3], ins[4])
+            total *= (n + 1) if ins[5] else n
+        elif k == "array":
+            e = of_type(ins[2], None, False)
+            if ins[3] is not None and ins[3][0] == "const":
+                n = e ** ins[3][1]
+            else:
+                n = sum(e ** c for c in cs)
+            total *= (n + 1) if ins[4] else n
+        elif k == "chunked":
+            total *= structures(types, ins[1], cfg)
+        elif k == "switch":
+            total *= sum(structures(types, c[3], cfg) for c in ins[2]) + 1
+    return total
+
+
+def choose_cfg(types, instrs, candidates, budget):
+    """the richest candidate configuration whose structure estimate stays within the budget"""
+    best = candidates[0]
+    for c in candidates:
+        if structures(types, instrs, c) <= budget:
+            best = c
+    return best
